@@ -12,11 +12,11 @@ TEXT = {
  "C03": "Chapter 10 UDP transfer header formats 1/2/3 and Chapter 11 header: layout = Spec, round trip, packet length = emitted length, multiple of 4, filler rule, secondary header; format-2 round trip is a _partial theorem (known finding K1)",
  "C04": "Chapter 11 data payload codecs (PCM, UART, 1553, ARINC-429, time formats 1/2, analog, computer-generated, video): layout = Spec, round trip of messages in order with time stamps and status bits, append()-built payloads accepted; calendar and NTP-fraction laws",
  "C05": "pcap files as byte strings: standard global header, write sessions irrelevant, read = write by iteration and index, every truncation offset yields the complete records then at most one shortened record",
- "C06": "MPEG-TS packet = 188 bytes with ISO 13818-1 header, adaptation-field length byte = adaptation bytes that follow for every combination of optional parts, PMT/PES/STANAG round trips; PES optional-header detection is a _partial theorem (known finding K2)",
- "C07": "every integrity field equals the standard algorithm (RFC 1071, IEEE 802.3 CRC-32, CRC-32/MPEG-2, IRIG 106 sums, MISB sum) of the protected bytes; single-bit flips are detected (CRC injectivity lemmas)",
+ "C06": "MPEG-TS packet = 188 bytes with ISO 13818-1 header, adaptation-field length byte = adaptation bytes that follow for every combination of optional parts, extension layout as coded (= ISO with length byte + 1, proved), PMT/PES/STANAG round trips, N packets in → N out, re-encode of any decoded packet never raises struct.error/TypeError; PES optional-header detection is a _partial theorem (known finding K2)",
+ "C07": "every integrity field equals the standard algorithm (RFC 1071 with the byte-order theorem, IEEE 802.3 CRC-32, CRC-32/MPEG-2, IRIG 106 sums, MISB sum) of the protected bytes; every single-bit flip of an Ethernet frame with FCS, of the STANAG 4609 protected bytes in the raw TS packet and of a PMT section outside its three structural fields (_partial) is rejected by the decoder",
  "C08": "every decoder loop has enough fuel for every buffer (termination) with a work bound items <= bytes; on the real code every unpack runs under a watchdog and an allocation ceiling, un-modelled decoders included",
  "C09": "each acceptance check as an iff theorem over all buffers; accepted elements have exactly the declared length (never truncated or padded)",
- "C10": "Chapter 7: frames of exactly the configured length, payload stream = concatenated Golay-protected PTDPs (prefix law), fragmentation law, offset field law, decapsulate∘encapsulate for normal traffic; low-latency traffic under NoLLPOverflow (_partial, known finding K3)",
+ "C10": "Chapter 7: frames of exactly the configured length (any traffic), emitted frames = Spec.Ch7.frames, payload stream = concatenated Golay-protected PTDPs (prefix law), fragmentation law, offset field law, decapsulate∘encapsulate for normal traffic, and for low-latency traffic under the decidable hypothesis NoLLPOverflow (decap_encap_llp; the overflow case is known finding K3)",
  "C11": "Golay(24,12): systematic, corrects every <=3-bit error and flags every 4-bit error for all 4096 values x all patterns (linearity + kernel-evaluated finite obligations, no native_decide)",
  "C12": "Chapter 10 file as a byte string: write then iterate returns the same byte strings, sync-free junk is skipped, every truncation offset yields exactly the complete packets, items <= bytes",
  "C13": "pack idempotent and field-preserving for every state; a successful unpack is independent of any prior state (same codec options); histories and two live objects compared on the real code",
